@@ -14,12 +14,13 @@
     that do not go through the model at all. *)
 From Coq Require Import List Arith ZArith NArith QArith Qabs Lia Bool Floats.
 Import ListNotations.
-Require Import Clarabel.Base.Ops Clarabel.Base.Dyadic Clarabel.Qdldl.Model.
+Require Import Clarabel.Base.Ops Clarabel.Base.Dyadic Clarabel.Qdldl.Model Clarabel.Qdldl.ModelHistory.
 Local Open Scope nat_scope.
 
-Definition andc (a b : N) : N := N.max a b.
+(** combination of result codes: 1 (violation candidate) dominates 2 (information), 2 dominates 0 *)
+Definition andc (a b : N) : N := if N.eqb a 1 || N.eqb b 1 then 1%N else N.max a b.
 Definition ofb (b : bool) : N := if b then 0%N else 1%N.
-Definition maxl (l : list N) : N := fold_left N.max l 0%N.
+Definition maxl (l : list N) : N := fold_left andc l 0%N.
 Definition nats (l : list N) : list nat := map N.to_nat l.
 Fixpoint fails (k : N) (l : list N) : list (N * N) :=
   match l with
@@ -59,6 +60,13 @@ Definition qd (d : dy) : Q := Qred (d2Q d).
 
 Section Run.
 Context {T : Type} (O : Ops T) (veq : T -> T -> bool).
+(** [strict]: a disagreement of computed VALUES with the model (D, Dinv, L values, inertia and
+    regularisation count, solutions) is a violation candidate (exact-rational stream) or only
+    information, code 2 (binary64 streams: the model transcribes one operation order; the
+    binding checks there are the order-independent ones added by the harness: exact dyadic
+    residuals, pivot rule, inertia, Rust-vs-Rust bitwise refactor == fresh) *)
+Context (strict : bool).
+Definition soft : N := if strict then 1%N else 2%N.
 
 Definition vlist_eqb := list_eqb veq.
 
@@ -113,7 +121,8 @@ Definition cmp_snap (Ain : spm (T:=T)) (F : res (fact (T:=T))) (s : snap) : N :=
       let pobs := if psame then vlist_eqb (nzval PA) Pv
                   else nlist_eqb (colptr PA) Pc && pmap_ok Ain (f_iperm F) amap Pc Pr Pv in
       let priv := list_eqb optn_eqb (w_etree w) et && nlist_eqb (w_Lnz w) lnz in
-      if negb (obs && lobs && pobs) then 1%N
+      if negb pobs then 1%N
+      else if negb (obs && lobs) then soft
       else if lsame && psame && priv then 0%N else 2%N
   | Err Panicked, SPanic => 0%N
   | Err e, SErr c => ofb (N.eqb (err_code e) c)
@@ -125,56 +134,43 @@ Definition cmp_snap (Ain : spm (T:=T)) (F : res (fact (T:=T))) (s : snap) : N :=
 Definition set_vals (A : spm (T:=T)) (v : list T) : spm (T:=T) :=
   mkSpm (sm A) (sn A) (colptr A) (rowval A) v.
 
-Record rstate : Type := mkRS { r_F : res (fact (T:=T)); r_A : spm (T:=T); r_code : N }.
+(** the script is replayed on the history state machine of ModelHistory.v: [r_st] = (object,
+    "held factors are meaningful"); after a failed refactor the script goes on (a refactor with no
+    change must fail again, a repaired matrix must refactor to the fresh factorisation, a solve in
+    between is unspecified) *)
+Record rstate : Type := mkRS { r_st : hstate (T:=T); r_A : spm (T:=T); r_code : N }.
 
 Definition step (S : settings (T:=T)) (st : rstate) (o : op) : rstate :=
-  match r_F st with
-  | Err _ => mkRS (r_F st) (r_A st) (andc (r_code st) 1%N)   (* script continues after an error: harness bug *)
-  | Ok F =>
-      let A := r_A st in
-      match o with
-      | OSolve b out =>
-          let c := match solve O F b, out with
-                   | Ok x, Some x' => ofb (vlist_eqb x x')
+  let F := h_F (r_st st) in
+  let A := r_A st in
+  match o with
+  | OSolve b out =>
+      match h_step O (r_st st) (HSolve b) with
+      | (_, HoSolve r) =>
+          let c := match r, out with
+                   | Ok x, Some x' => if vlist_eqb x x' then 0%N else soft
                    | Err Panicked, None => 0%N
                    | _, _ => 1%N
                    end in
-          mkRS (Ok F) A (andc (r_code st) c)
-      | OUpdate idx vals =>
-          mkRS (Ok (update_values F idx vals))
-               (set_vals A (fold_left (fun nz iv => upd nz (fst iv) (snd iv)) (combine idx vals) (nzval A)))
-               (r_code st)
-      | OScale idx s =>
-          mkRS (Ok (scale_values O F idx s))
-               (set_vals A (fold_left (fun nz i => upd nz i (mul O (nth i nz (zero O)) s)) idx (nzval A)))
-               (r_code st)
-      | OOffset idx off signs panicked =>
-          match offset_values O F idx off signs with
-          | Ok F' =>
-              mkRS (Ok F')
-                   (set_vals A (fold_left (fun nz is_ =>
-                                             let i := fst is_ in
-                                             match Z.sgn (snd is_) with
-                                             | 1%Z => upd nz i (add O (nth i nz (zero O)) off)
-                                             | (-1)%Z => upd nz i (sub O (nth i nz (zero O)) off)
-                                             | _ => nz
-                                             end) (combine idx signs) (nzval A)))
-                   (andc (r_code st) (ofb (negb panicked)))
-          | Err _ => mkRS (Ok F) A (andc (r_code st) (ofb panicked))
-          end
-      | ORefactor out =>
-          let F' := refactor O F in
-          (* the property's claim: the same as factoring the updated matrix from scratch *)
-          let S' := mkSet (s_perm S) false (s_Dsigns S) (s_reg_enable S) (s_eps S) (s_delta S) in
-          let fresh := qnew O A S' in
-          let c := andc (cmp_snap A F' out) (cmp_snap A fresh out) in
-          match F' with
-          | Ok F'' => mkRS (Ok F'') A (andc (r_code st) c)
-          | Err _ =>
-              (* a failed refactor leaves the Rust object half updated: the script ends here *)
-              mkRS F' A (andc (r_code st) c)
-          end
+          mkRS (r_st st) A (andc (r_code st) c)
+      | _ => st   (* after a failed refactor: unspecified *)
       end
+  | OUpdate idx vals =>
+      mkRS (fst (h_step O (r_st st) (HUpdate idx vals))) (hop_on_A O A (HUpdate idx vals)) (r_code st)
+  | OScale idx s =>
+      mkRS (fst (h_step O (r_st st) (HScale idx s))) (hop_on_A O A (HScale idx s)) (r_code st)
+  | OOffset idx off signs panicked =>
+      match h_step O (r_st st) (HOffset idx off signs) with
+      | (st', HoPanic) => mkRS st' A (andc (r_code st) (ofb panicked))
+      | (st', _) => mkRS st' (hop_on_A O A (HOffset idx off signs)) (andc (r_code st) (ofb (negb panicked)))
+      end
+  | ORefactor out =>
+      let F' := refactor O F in
+      (* the property's claim: the same as factoring the updated matrix from scratch *)
+      let S' := mkSet (s_perm S) false (s_Dsigns S) (s_reg_enable S) (s_eps S) (s_delta S) in
+      let fresh := qnew O A S' in
+      let c := andc (cmp_snap A F' out) (cmp_snap A fresh out) in
+      mkRS (fst (h_step O (r_st st) HRefactor)) A (andc (r_code st) c)
   end.
 
 Definition run (A : spm (T:=T)) (S : settings (T:=T)) (first : snap) (ops : list op) : N :=
@@ -182,7 +178,7 @@ Definition run (A : spm (T:=T)) (S : settings (T:=T)) (first : snap) (ops : list
   let c0 := cmp_snap A F first in
   match F with
   | Err _ => andc c0 (ofb (match ops with [] => true | _ => false end))
-  | Ok _ => r_code (fold_left (step S) ops (mkRS F A c0))
+  | Ok F0 => r_code (fold_left (step S) ops (mkRS (mkH F0 true) A c0))
   end.
 
 End Run.
@@ -202,7 +198,7 @@ Definition oUpdateQ (idx : list N) (v : list dy) : op (T:=Q) := OUpdate (nats id
 Definition oScaleQ (idx : list N) (s : dy) : op (T:=Q) := OScale (nats idx) (qd s).
 Definition oOffsetQ (idx : list N) (off : dy) (sg : list Z) (p : bool) : op (T:=Q) :=
   OOffset (nats idx) (qd off) sg p.
-Definition runQ := run OpsQr Qeq_bool.
+Definition runQ := run OpsQr Qeq_bool true.
 
 (** ** instantiation at binary64 *)
 Definition tolF : float := 0x1p-30%float.
@@ -223,7 +219,7 @@ Definition oUpdateF (idx : list N) (v : list float) : op (T:=float) := OUpdate (
 Definition oScaleF (idx : list N) (s : float) : op (T:=float) := OScale (nats idx) s.
 Definition oOffsetF (idx : list N) (off : float) (sg : list Z) (p : bool) : op (T:=float) :=
   OOffset (nats idx) off sg p.
-Definition runF := run OpsF closeF.
+Definition runF := run OpsF closeF false.
 
 (** ** permutation vectors: accepted iff a permutation (spec side, not the model), and the
     model agrees *)
